@@ -1101,7 +1101,8 @@ def check_nonfinite(ctx, c, stats):
         return
     w = impl_json_write(c.parsed, c.records, c.wut)
     if w[0] != "ok":
-        stats["nonfinite_writer_raised"] = stats.get("nonfinite_writer_raised", 0) + 1
+        k = "nonfinite_writer_raised:" + str(w[1])
+        stats[k] = stats.get(k, 0) + 1
         return
     if re.search(r"NaN|Infinity", w[1]):
         stats["nonfinite_tokens_written"] = stats.get("nonfinite_tokens_written", 0) + 1
